@@ -424,16 +424,218 @@ Definition shelley_path (assumed streaming : bool) (data : bytes) (blk : list by
   | _ => Unmodelled
   end.
 
-(* StreamingBlockDecoder.DecodeWithOffsets / ExtractTransactionOffsets.
-   Blocks with 3 elements go through isByronBlock, 2-element ones through
-   isDijkstraBlock in the non-streaming walker: not modelled here. *)
+(* ---- Byron main blocks: [header, [tx_payload, ssc, dlg, upd], extra] ---------- *)
+(* isByronBlock *)
+Definition is_byron_block (blk : list bytes) : bool :=
+  match blk with
+  | [_; b1; _] =>
+      match dec_raw_list b1 with
+      | Some ([p0; _; _; _], _) =>
+          match dec_raw_list p0 with
+          | Some ([], _) => true
+          | Some (pair0 :: _, _) =>
+              match dec_raw_list pair0 with Some ([_; _], _) => true | _ => false end
+          | None => false
+          end
+      | _ => false
+      end
+  | _ => false
+  end.
+
+(* extractByronOutputOffsets: tx body = [inputs, outputs, attributes] *)
+Definition byron_output_offsets (assumed : bool) (body : bytes) (body_off : nat) : list range :=
+  if Nat.ltb (length body) 2 then []
+  else match dec_raw_list body with
+       | Some (p0 :: p1 :: pr, _) =>
+           match dec_raw_list p1 with
+           | Some (o :: os, _) =>
+               let outs := o :: os in
+               let bh := hdr_at assumed true body (S (S (length pr))) in
+               let outs_abs := (body_off + bh + length p0)%nat in
+               let oh := hdr_at assumed true p1 (length outs) in
+               walk (outs_abs + oh)%nat outs
+           | _ => []                         (* decode error, or no outputs *)
+           end
+       | _ => []                             (* decode error, or fewer than 2 parts *)
+       end.
+
+(* the loop over the [tx_body, tx_witnesses] pairs; None = error return *)
+Fixpoint byron_pairs (assumed : bool) (pairs : list bytes) (pos : nat) : option (list txloc) :=
+  match pairs with
+  | [] => Some []
+  | raw :: r =>
+      match dec_raw_list raw with
+      | Some (b :: w :: pr, _) =>
+          let ph := hdr_at assumed true raw (S (S (length pr))) in
+          let bstart := (pos + ph)%nat in
+          match byron_pairs assumed r (pos + length raw)%nat with
+          | Some l => Some (mk_txloc (bstart, length b) ((bstart + length b)%nat, length w) zero_range
+                                     (byron_output_offsets assumed b bstart) [] :: l)
+          | None => None
+          end
+      | _ => None                            (* decode error, or len(txPair) < 2 *)
+      end
+  end.
+
+(* extractByronTransactionOffsets *)
+Definition byron_offsets (assumed : bool) (data : bytes) (blk : list bytes) : outcome :=
+  match blk with
+  | b0 :: b1 :: _ =>
+      let ahs := hdr_at assumed false data (length blk) in
+      let body_off := (ahs + length b0)%nat in
+      match dec_raw_list b1 with
+      | Some ([p0; p1; p2; p3], _) =>
+          match dec_raw_list p0 with
+          | Some ([], _) => Done []
+          | Some (payload, _) =>
+              let bah := hdr_at assumed false b1 4 in
+              let ph := hdr_at assumed true p0 (length payload) in
+              match byron_pairs assumed payload (body_off + bah + ph)%nat with
+              | Some l => Done l
+              | None => Fail
+              end
+          | None => Fail
+          end
+      | _ => Fail
+      end
+  | _ => Fail
+  end.
+
+(* ---- Dijkstra blocks: [header, [invalid/nil, transactions, leios/nil, peras/nil]] ---- *)
+(* isDijkstraBlock *)
+Definition is_dijkstra_block (blk : list bytes) : bool :=
+  match blk with
+  | [_; b1] =>
+      match dec_raw_list b1 with
+      | Some ([_; p1; _; _], _) =>
+          match dec_raw_list p1 with
+          | Some ([], _) => true
+          | Some (tx0 :: _, _) => match dec_raw_list tx0 with Some ([_; _; _], _) => true | _ => false end
+          | None => false
+          end
+      | _ => false
+      end
+  | _ => false
+  end.
+
+(* count check `!indefinite && count != n` of cborArrayInfo results; None = invalid header *)
+Definition info_ok (data : bytes) (n : N) : option nat :=
+  match cbor_array_info data with
+  | (None, _, false) => None
+  | (oc, hs, indef) =>
+      if negb indef && negb ((match oc with Some c => c | None => 0 end) =? n) then None else Some hs
+  end.
+
+(* the loop over the transactions: txsDecoder.DecodeRaw gives each [body, witness_set, aux/nil] *)
+Fixpoint dijkstra_txs (fuel : nat) (n : nat) (pos : nat) (rest : bytes) : option (list txloc) :=
+  match n with
+  | O => Some []
+  | S n' =>
+      match sd_skip rest with
+      | None => None
+      | Some (tlen, r) =>
+          let raw := firstn tlen rest in
+          match dec_raw_list raw with
+          | Some ([_; _; _], _) =>
+              match info_ok raw 3 with
+              | None => None
+              | Some ths =>
+                  let r0 := skipn ths raw in
+                  match sd_skip r0 with
+                  | None => None
+                  | Some (bl, r1) =>
+                    match sd_skip r1 with
+                    | None => None
+                    | Some (wl, r2) =>
+                      match sd_skip r2 with
+                      | None => None
+                      | Some (al, _) =>
+                          let body := firstn bl r0 in let wit := firstn wl r1 in let aux := firstn al r2 in
+                          let bstart := (pos + ths)%nat in
+                          let wstart := (pos + ths + bl)%nat in
+                          let astart := (pos + ths + (bl + wl))%nat in
+                          let meta := match aux with [246] => zero_range | _ => (astart, al) end in
+                          match dijkstra_txs fuel n' (pos + tlen)%nat r with
+                          | Some l => Some (mk_txloc (bstart, bl) (wstart, wl) meta
+                                                     (output_offsets false true true body bstart)
+                                                     (witness_components wit wstart) :: l)
+                          | None => None
+                          end
+                      end
+                    end
+                  end
+              end
+          | _ => None
+          end
+      end
+  end.
+
+(* extractDijkstraTransactionOffsets *)
+Definition dijkstra_offsets (data : bytes) (blk : list bytes) : outcome :=
+  match blk with
+  | [_; b1] =>
+      match info_ok data 2 with
+      | None => Fail
+      | Some top_hs =>
+          match dec_raw_list b1 with
+          | Some ([_; _; _; _], _) =>
+              match sd_skip (skipn top_hs data) with               (* Skip: header *)
+              | None => Fail
+              | Some (hl, r1) =>
+                match sd_skip r1 with                              (* DecodeRaw: block body *)
+                | None => Fail
+                | Some (bl, _) =>
+                    let body_raw := firstn bl r1 in
+                    let body_off := (top_hs + hl)%nat in
+                    match info_ok body_raw 4 with
+                    | None => Fail
+                    | Some body_hs =>
+                        match sd_skip (skipn body_hs body_raw) with    (* Skip: invalid_transactions *)
+                        | None => Fail
+                        | Some (il, q1) =>
+                          match sd_skip q1 with                        (* DecodeRaw: transactions *)
+                          | None => Fail
+                          | Some (tl, _) =>
+                              let txs_raw := firstn tl q1 in
+                              let txs_off := (body_off + body_hs + il)%nat in
+                              match dec_raw_list txs_raw with
+                              | None => Fail
+                              | Some ([], _) => Done []
+                              | Some (txs, _) =>
+                                  match info_ok txs_raw (N.of_nat (length txs)) with
+                                  | None => Fail
+                                  | Some txs_hs =>
+                                      match dijkstra_txs 0 (length txs) (txs_off + txs_hs)%nat (skipn txs_hs txs_raw) with
+                                      | Some l => Done l
+                                      | None => Fail
+                                      end
+                                  end
+                              end
+                          end
+                        end
+                    end
+                end
+              end
+          | _ => Fail
+          end
+      end
+  | _ => Fail
+  end.
+
+(* StreamingBlockDecoder.DecodeWithOffsets / ExtractTransactionOffsets (with
+   fixes/C07-ebb-no-transactions.patch: a 3-element block that is not a Byron
+   main block - an epoch boundary block - has no transaction segments).
+   `ebb_fix = false` is the code before that patch: such a block went on into the
+   Shelley+ layout (not modelled for 3 elements: Unmodelled). *)
 Definition extract_gen (assumed streaming : bool) (data : bytes) : outcome :=
   match dec_raw_list data with
   | None => Fail
   | Some (blk, _) =>
       let n := length blk in
-      if Nat.ltb n 3 then (if streaming then Done [] else if Nat.eqb n 2 then Unmodelled else Done [])
-      else if Nat.eqb n 3 then Unmodelled
+      if negb streaming && is_dijkstra_block blk then dijkstra_offsets data blk
+      else if Nat.ltb n 3 then Done []
+      else if is_byron_block blk then byron_offsets assumed data blk
+      else if Nat.ltb n 4 then Done []
       else shelley_path assumed streaming data blk
   end.
 
